@@ -27,7 +27,7 @@ RULE = (
     "(two MOL resolutions agree 10x better than the error judged) and the coarsest-rung recovery "
     "error exceeds 1e-4 (so that shrinking can be observed); distinct = descriptor hash."
 )
-MIN_NONTRIVIAL = {"quick": 5, "thorough": 150}
+MIN_NONTRIVIAL = {"quick": 4, "thorough": 130}
 SHARDS = {"quick": 6, "thorough": 16}
 WATCHDOG_S = {"quick": 900, "thorough": 7200}
 GENERATOR = {"nx": "25, 50, 100, 200 (+400 thorough)", "r": [4, 8, 16], "t_end": "[3, 12]", "p_f/p_i": "0.05..0.999", "parabolic ladders": "nx 10, 20, 40 (80) with uniform dt = theta dx^2, theta in [0.08, 0.24], t_end in [0.3, 1]"}
